@@ -558,6 +558,69 @@ def fixed_render(stmts, wrap, cont, cstyle, salt):
     return "\n".join(lines) + "\n"
 
 
+def tab_render(stmts):
+    lines = []
+    for k, s in enumerate(stmts):
+        lab = str(s["label"]) if s["label"] else ""
+        text = ((s["cname"] + ": ") if s["cname"] else "") + s["text"]
+        lines.append(lab + "\t" + text)
+        if k % 4 == 1:
+            lines.append("C\ta comment with a tab")
+    return "\n".join(lines) + "\n"
+
+
+def fixed_kinds(src):
+    """The sequence of leaf kinds ('s' statement, 'c' comment) of a fixed-form text produced by the renderers."""
+    out = []
+    for ln in src.split("\n"):
+        if not ln.strip():
+            continue
+        if ln[0] in "Cc*!":
+            out.append("c")
+        elif len(ln) > 5 and ln[:5].strip() == "" and ln[5] not in " 0" and "\t" not in ln[:6]:
+            continue                      # continuation line
+        else:
+            out.append("s")
+    # comments inside a continued statement are delivered after it
+    return reorder_comments(src, out)
+
+
+def reorder_comments(src, kinds):
+    """Comments between the lines of a continued statement come after the statement."""
+    lines = [ln for ln in src.split("\n") if ln.strip()]
+    res = []
+    pending = []
+    i = 0
+    n = len(lines)
+
+    def is_c(ln):
+        return ln[0] in "Cc*!"
+
+    def is_cont(ln):
+        return len(ln) > 5 and ln[:5].strip() == "" and ln[5] not in " 0" and "\t" not in ln[:6] and not is_c(ln)
+    while i < n:
+        ln = lines[i]
+        if is_c(ln):
+            res.append("c")
+            i += 1
+            continue
+        # a statement: collect its continuation lines and the comments between them
+        res.append("s")
+        j = i + 1
+        held = 0
+        got = 0
+        while j < n and (is_c(lines[j]) or is_cont(lines[j])):
+            if is_cont(lines[j]):
+                got += held
+                held = 0
+            else:
+                held += 1
+            j += 1
+        res.extend(["c"] * got)
+        i = j - held
+    return res
+
+
 def work_progfixed(case):
     from .. import fp
     out = {}
@@ -571,6 +634,12 @@ def work_progfixed(case):
             mode = "error"
         o, t = fp.parse(fp.create("f2008"), src, ignore_comments=True)
         out[name] = {"mode": mode, "o": o, "sci": fp.struct(t, ci=True) if t is not None else None}
+        # with comments kept: the interleaving of statements and comments (kinds only; the comment texts differ by style)
+        o2, t2 = fp.parse(fp.create("f2008"), src, ignore_comments=False)
+        out[name]["o_keep"] = o2
+        if t2 is not None:
+            from .. import obs
+            out[name]["kinds"] = [k if k != "d" else "c" for k, _ in obs.leaves_of(t2)]
     return {"id": case["id"], "out": out}
 
 
@@ -582,9 +651,16 @@ def program_fixed(chk, tier):
         srcs = {"free": p["src"]}
         variants = [(72, "1", "C"), (40, "!", "*"), (17, "x", "!"), (30, "*", "c")] if tier != "quick" else \
             [[(72, "1", "C"), (40, "!", "*"), (17, "$", "c"), (30, "c", "C")][p["id"] % 4]]
+        kinds = {}
         for w, c, st in variants:
             srcs["fix%d" % w] = fixed_render(p["stmts"], w, c, st, p["id"])
-        cases.append({"id": p["id"], "srcs": srcs})
+        if p["id"] % 2 == 0:
+            # tab source form: a TAB after the (possibly empty) label field takes the text past column 6
+            srcs["tab"] = tab_render(p["stmts"])
+        for name, src in srcs.items():
+            if name != "free":
+                kinds[name] = fixed_kinds(src)
+        cases.append({"id": p["id"], "srcs": srcs, "kinds": kinds})
     res = pmap(work_progfixed, cases, timeout=300)
     for c, r in zip(cases, res):
         if "__timeout__" in r or "__died__" in r:
@@ -606,3 +682,12 @@ def program_fixed(chk, tier):
                               "C05: fixed-form program not accepted (%s):\n%s" % (x["o"], c["srcs"][name][:800]), {"srcs": c["srcs"], "which": name})
             elif free["o"]["res"] == "ok" and x["sci"] != free["sci"]:
                 chk.violation({"clause": "tree-differs", "level": "program"}, "C05: fixed-form program parses differently from its free-form text:\n%s" % c["srcs"][name][:800], {"srcs": c["srcs"], "which": name})
+            elif x["o_keep"]["res"] != "ok":
+                chk.violation({"clause": "layout-not-accepted-with-comments", "level": "program"}, "C05: fixed-form program not accepted when comments are kept (%s):\n%s" % (x["o_keep"], c["srcs"][name][:800]),
+                              {"srcs": c["srcs"], "which": name})
+            else:
+                # every comment line of the fixed-form text is a comment leaf, in place: the statement/comment interleaving is the one the renderer produced
+                exp = c["kinds"][name]
+                if x.get("kinds") != exp:
+                    chk.violation({"clause": "comments-differ", "level": "program"}, "C05: with comments kept the fixed-form program yields leaves %s..., expected %s...:\n%s" % (
+                        (x.get("kinds") or [])[:30], exp[:30], c["srcs"][name][:800]), {"srcs": c["srcs"], "which": name})
